@@ -5,29 +5,36 @@ import time
 from props import C30 as N
 
 LEVEL = "proof"
-RULE = ("Coq: Properties/C31.v over Nrepl.v (interrupt flag discipline under all interleavings; fix-1 model for close; the "
-        "as-found code is refuted by a concrete trace). Dynamic: fresh real servers with injected yields; scenarios with "
-        "randomised offsets: interrupt after the eval is observably running (must end `interrupted` within the prompt "
-        "bound, output a prefix), interrupt while idle then eval (must complete, full output), interrupt with a second "
-        "eval queued (only the running one stops), interrupt in another session (no effect), close while running, close "
-        "back-to-back with the eval, close with a second eval queued (everything must stop promptly); eval+interrupt "
-        "back-to-back is recorded (race R2) but not judged. All C30 socket checks run on the same traffic and every H4 "
-        "log is replayed through the extracted model.")
+RULE = ("Coq: Properties/C31.v over Nrepl.v (interrupt flag + pending-counter protocol under all interleavings; close "
+        "invariant; the old protocols are refuted by concrete traces). Dynamic: fresh real servers with injected "
+        "yields; scenarios with randomised offsets: interrupt after the eval is observably running (must end "
+        "`interrupted` within the prompt bound, output a prefix), interrupt sent in the same TCP write as the eval, on a "
+        "brand-new session whose worker is still starting up or on a warmed-up one (the eval must still be stopped), "
+        "interrupt while idle then eval (must complete, full output), interrupt with a second eval queued (only the "
+        "running one stops), interrupt in another session (no effect), close while running, close back-to-back with "
+        "the eval, close with a second eval queued (everything must stop promptly). All C30 socket checks run on the "
+        "same traffic and every H4 log is replayed through the extracted model.")
 META = {
     "technique": "Coq proofs over the nREPL transition system (flag write discipline, close invariant) + trace replay + timed socket-level scenarios on the real server",
-    "level_text": ("Coq theorems over all interleavings: interrupt_running (a store that lands after the worker's reset "
-                   "makes the next check of that eval end it Interrupted) with interrupted_eval_reports_interrupted; "
-                   "idle_interrupt_harmless (no check before the next reset; after a reset checks see false until a new "
-                   "store); flag_write_discipline; close_stops_running + close_establishes_hypotheses for the code with "
-                   "fix-1; close_stops_running_refuted_asis exhibits the interleaving that defeats the code as found; "
-                   "interrupt_before_reset_lost exhibits race R2 (interrupt handled before the worker's reset is erased)."),
+    "level_text": ("Coq theorems over all interleavings: interrupt_running (flag up and no check/finish since => the next "
+                   "check of that eval ends it Interrupted) with interrupted_eval_reports_interrupted; "
+                   "interrupt_reaches_queued_eval (an interrupt handled while a request is queued or in the worker's "
+                   "hands is accepted, survives the dequeue and every step except a check of that session or the "
+                   "session going idle, and stops the first eval that checks); idle_interrupt_is_ignored; "
+                   "idle_interrupt_harmless (idle + not closed => flag down, in every reachable state; flag down => "
+                   "checks pass); flag_write_discipline; close_stops_running + close_establishes_hypotheses; "
+                   "interrupt_lost_old_protocol_refuted and close_stops_running_refuted_asis exhibit the interleavings "
+                   "that defeat the earlier code."),
     "level_note": ("'Promptly' is wall-clock and outside the model: the model proves 'at the next flag check'; the dynamic "
-                   "part measures it (bound PROMPT_S). R2 is classified by the property's idle clause and only counted. "
-                   "The evaluator's check (load; store false) is one atomic step in the model (Nrepl.v NOTE 1)."),
+                   "part measures it (bound PROMPT_S; BOOT_S more when the session worker is still starting). An interrupt "
+                   "accepted after the running eval's last check stops the next queued eval of the session if there is "
+                   "one (Properties/C31.v, R1). The evaluator's check (load; store false) and every mutex critical "
+                   "section are one atomic step in the model."),
     "design_ref": "DESIGN.md §5 C31",
 }
 
 PROMPT_S = 3.0          # an interrupted/closed eval must report within this many seconds
+BOOT_S = 6.0            # extra allowance when the session's worker thread may still be loading the prelude
 LONG = 7000000          # loop iterations: well over 10 s in the debug build
 
 
@@ -76,11 +83,11 @@ class Round:
             self.problems.append(("long-eval-did-not-start", rid))
         return rid
 
-    def must_stop(self, rid, t0, key, what):
-        d = self.cl.wait_done(rid, PROMPT_S + 1.0)
+    def must_stop(self, rid, t0, key, what, extra=0.0):
+        d = self.cl.wait_done(rid, PROMPT_S + extra + 1.0)
         dt = time.time() - t0
-        if not d or dt > PROMPT_S + 0.9:
-            self.findings.append((key, "%s: eval %s was not stopped within %.1f s" % (what, rid, PROMPT_S),
+        if not d or dt > PROMPT_S + extra + 0.9:
+            self.findings.append((key, "%s: eval %s was not stopped within %.1f s" % (what, rid, PROMPT_S + extra),
                                   {"expected": "done+interrupted promptly", "observed": "no done after %.1f s" % dt}))
             self.expect[rid]["may_hang"] = True
             return False
@@ -204,33 +211,60 @@ class Round:
         self.must_stop(r2, t0, "C31:close-queued-eval-runs-on", "close with a second eval queued (queued one)")
         self.stat("sc close_queued")
 
-    def sc_r2_observe(self):
-        """eval + interrupt in one write: the interrupt may be erased by the worker's reset (race R2). Recorded only."""
+    def sc_interrupt_queued_at_startup(self):
+        """eval + interrupt in ONE write. On a brand-new session the worker thread is still building its Env, so the
+        interrupt is handled while the eval is queued; on a warmed-up session it lands around the dequeue. Either way
+        the eval must be stopped (the old protocol erased the interrupt: C31:interrupt-before-worker-reset-lost)."""
         s = self.new_session()
-        if self.rng.random() < 0.5:
+        fresh = self.rng.random() < 0.6
+        if not fresh:
             w = self.rid("q")
             self.cl.send(self.eval(s, N.gen_prog(self.rng, w, heavy=False), w))
             self.cl.wait_done(w, 30)
         rid, i = self.rid("L"), self.rid("i")
         pr = long_prog(rid)
         self.expect[i] = {"kind": "interrupt"}
+        t0 = time.time()
         self.cl.send(self.eval(s, pr, rid, may_interrupt=True), {"op": "interrupt", "id": i, "session": s})
-        d = self.cl.wait_done(rid, 1.5)
-        if d:
-            self.stat("r2 interrupt_taken")
-        else:
-            self.stat("r2 interrupt_lost_before_reset")
+        ok = self.must_stop(rid, t0, "C31:interrupt-before-worker-reset-lost",
+                            "interrupt sent right behind its eval (%s session)" % ("new" if fresh else "warm"), extra=BOOT_S)
+        self.stat("early_interrupt " + ("stopped" if ok else "LOST") + (" new-session" if fresh else " warm-session"))
+        if not ok:                                   # clean up so that the round can go on
             self.cl.wait_out(rid, "started-" + rid, 25)
             i2 = self.rid("i")
             self.expect[i2] = {"kind": "interrupt"}
-            t0 = time.time()
             self.cl.send({"op": "interrupt", "id": i2, "session": s})
-            self.must_stop(rid, t0, "C31:interrupt-running-not-stopped", "second interrupt after a lost one")
-        self.stat("sc r2_observe")
+            self.cl.wait_done(rid, 10)
+        self.stat("sc interrupt_queued_at_startup")
+
+    def sc_interrupt_second_queued(self):
+        """E1 running, E2 (long) queued, interrupt: E1 stops, E2 must start and run (it is not the one interrupted);
+        a second interrupt once E2 is observably running stops E2."""
+        s = self.new_session()
+        r1 = self.start_long(s)
+        r2 = self.rid("L")
+        self.cl.send(self.eval(s, long_prog(r2), r2, may_interrupt=True, queued=True))
+        time.sleep(self.rng.choice([0.005, 0.05]))
+        i = self.rid("i")
+        self.expect[i] = {"kind": "interrupt"}
+        t0 = time.time()
+        self.cl.send({"op": "interrupt", "id": i, "session": s})
+        self.must_stop(r1, t0, "C31:interrupt-running-not-stopped", "interrupt with a long eval queued")
+        if not self.cl.wait_out(r2, "started-" + r2, 25):
+            self.findings.append(("C31:interrupt-leaks-to-queued-eval",
+                                  "one interrupt stopped the running eval AND the eval queued behind it (%s)" % r2,
+                                  {"expected": "the queued eval starts", "observed": "no output from it"}))
+        i2 = self.rid("i")
+        self.expect[i2] = {"kind": "interrupt"}
+        t0 = time.time()
+        self.cl.send({"op": "interrupt", "id": i2, "session": s})
+        self.must_stop(r2, t0, "C31:interrupt-running-not-stopped", "second interrupt, for the eval that was queued")
+        self.stat("sc interrupt_second_queued")
 
 
 SCENARIOS = ["sc_interrupt_running", "sc_idle_interrupt", "sc_interrupt_queued", "sc_other_session",
-             "sc_close_running", "sc_close_back_to_back", "sc_close_queued", "sc_r2_observe"]
+             "sc_close_running", "sc_close_back_to_back", "sc_close_queued", "sc_interrupt_queued_at_startup",
+             "sc_interrupt_second_queued"]
 
 
 def c31_round(exe, seed, name, rng_seed, only=None):
@@ -288,16 +322,12 @@ def run(ctx):
     mdl = ctx.model()
     if not exe:
         return
-    n = 32 if ctx.thorough else 8
+    n = 36 if ctx.thorough else 9
     ctx.log("running %d scenario rounds" % n)
     rounds = N.run_rounds(ctx, c31_round, exe, n, par=4)
     for res in rounds:
         judge(ctx, res)
     N.replay_logs(ctx, mdl, rounds)
-    if ctx.stats.get("r2 interrupt_lost_before_reset"):
-        ctx.notes.append("race R2 observed %d time(s): an interrupt sent right behind its eval was acknowledged but erased by "
-                         "the worker's reset (Properties/C31.v interrupt_before_reset_lost); not judged -- proposed "
-                         "known-finding key C31:interrupt-before-worker-reset-lost" % ctx.stats["r2 interrupt_lost_before_reset"])
 
 
 def replay(ctx, rp):
